@@ -70,6 +70,15 @@ def rand_dep(rng, ids_):
         d["stylesheet"] = [{"href": "a b.css", "rel": rng.choice(["preload", "alternate stylesheet"])}]
     if rng.random() < 0.5:
         d["meta"] = {"name": "viewport", "content": ids_.next("m")}
+        r_ = rng.random()
+        if r_ < 0.3:
+            # python-style and mixed-case keys, extra keys, several items: whatever is stored stays as it was given
+            d["meta"] = [dict(d["meta"], http_equiv="refresh", data_x_y="1", Content_Type="t"), {"name": "n2", "content": "c2", "x_": "trailing", "_lead": "l"}]
+        elif r_ < 0.4:
+            d["meta"] = [d["meta"]]
+    if rng.random() < 0.15 and isinstance(d.get("script"), list):
+        d["script"] = d["script"] + [{"src": "k.js", "cross_origin": "anonymous", "data_main": "m", "no_module": ""}]
+        d["stylesheet"] = (d["stylesheet"] if isinstance(d.get("stylesheet"), list) else [d["stylesheet"]] if d.get("stylesheet") else []) + [{"href": "k.css", "cross_origin": "x"}]
     if rng.random() < 0.5:
         d["head"] = [gen.TAG("title", {"k": "text", "s": ids_.next("T")}), {"k": "html", "s": "<link rel=\"x\">"}]
     elif rng.random() < 0.3:
